@@ -236,6 +236,21 @@ class C08(Check):
                 yield "fmt " + " ".join(fs[0]), "fmt-sticky-rand"
             else:
                 yield "seq " + " / ".join(" ".join(g) for g in fs), "seq-rand"
+        # chain shapes written as ONE expression on a named formatter that is read afterwards through its name (the driver runs
+        # every fmt case that way too): f.args(a) % b;  f.args(a).args(b);  (f % a).args(b) % c;  f % a % b;  f.args() % a; ...
+        SHAPES = [["a1", "p"], ["a1", "a1"], ["p", "a1", "p"], ["p", "p"], ["a0", "p"], ["a2", "a0"], ["a1", "a0", "a1"], ["a2", "p"],
+                  ["p", "a2"], ["a1", "p", "p"], ["a1", "a2"], ["a3"], ["a1"], ["p", "a1"], ["a1", "a1", "a1"]]
+        CARGS = ["s61", "i1", "n62", "s7b7d", "i2", "r63"]
+        for shape in SHAPES:
+            n = sum(1 if s == "p" else int(s[1]) for s in shape)
+            for k in sorted(set([max(0, n - 1), n, n + 1])):
+                for f in ["-".join(["{}"] * k), "[" + "".join(["{}"] * k) + "]"]:
+                    for rot in range(2):
+                        args, ops, i = [A(CARGS[(j + rot) % len(CARGS)]) for j in range(n)], [], 0
+                        for s in shape:
+                            m = 1 if s == "p" else int(s[1])
+                            ops.append("p:" + warg(args[i]) if s == "p" else "a:" + wargs(args[i:i + m])); i += m
+                        yield fmt_case(f, ops), "fmt-chain-shape"
         # value categories of string arguments: s const lvalue, n the caller's non-const variable (same text = same variable),
         # r temporary, l const char*, c char — the same variable for several placeholders and again in a later formatter
         POOL = ["n616263", "n78", "s616263", "r616263", "l616263", "c61", "n-"]
